@@ -1,4 +1,5 @@
 """Scenario sources for the command-line properties (G stage + concretisation)."""
+import re
 import json, os
 import vlib, clirun
 from sources import tlc_generate
@@ -532,7 +533,48 @@ def src_exitcode(tier, seed):
             s2["timeout"] = 60
             scenarios.append(s2)
     stats["cases"] = len(scenarios)
+    stats["unbounded"] = _exitcode_unbounded(stats["instances"])
     return scenarios, stats
+
+
+def _exitcode_unbounded(instances):
+    """spec/ExitCodeProof.tla: for any number of files, results and threads the status is the maximum of what was
+    reported - proved with TLAPS (and exhaustively by TLC: its state space is finite) under the assumption that every
+    access is store(2), fetch_max(1) or load.  The assumption is checked here against the accesses recorded from the
+    current binary; when it does not hold the theorem is not relied on (the bounded data-driven model decides)."""
+    def in_vocab(o):
+        return o["op"] == "load" or (o["op"] == "store" and o["arg"] == 2) or (o["op"] == "fetch_max" and o["arg"] == 1)
+    ops = [o for inst in instances for o in inst["main_ops"]] + [o for inst in instances for r in inst["results"] for o in r["ops"]]
+    outside = sorted(set("%s(%s)" % (o["op"], o["arg"]) for o in ops if not in_vocab(o)))
+    res = {"theorem": "ExitCodeProof!Safety, NeverLowered", "recorded_accesses": len(ops), "outside_vocabulary": outside}
+    if outside:
+        res["status"] = "not applicable to this binary: accesses outside {store(2), fetch_max(1), load}"
+        return res
+    import shutil, subprocess, tempfile
+    d = tempfile.mkdtemp(prefix="tlaps", dir=vlib.TMP)
+    try:
+        shutil.copy(os.path.join(vlib.SPEC, "ExitCodeProof.tla"), d)
+        try:
+            r = subprocess.run(["tlapm", "--threads", "4", "ExitCodeProof.tla"], cwd=d, capture_output=True, text=True, timeout=600)
+            out = r.stdout + r.stderr
+            m = re.search(r"All (\d+) obligations? proved", out)
+            res["tlapm"] = ("all %s obligations proved" % m.group(1)) if m else "NOT PROVED: " + out[-400:]
+        except (OSError, subprocess.TimeoutExpired) as ex:
+            res["tlapm"] = "tlapm did not run: %s" % ex
+        t = vlib.tlc("ExitCodeProof", "ExitCodeProof.cfg", "exitcode_proof", workers=1, timeout=300,
+                     jvm=["-DTLA-Library=/opt/veriftools/tlapm/lib/tlapm/stdlib"])
+        res["tlc"] = "%d distinct states, %s" % (t["distinct"], "no error" if "No error has been found" in t["tail"] else "ERROR: " + t["tail"][-300:])
+        try:
+            os.remove(t["out"])
+        except OSError:
+            pass
+        ok = res.get("tlapm", "").startswith("all") and res["tlc"].endswith("no error")
+        res["status"] = "holds for unbounded files/threads" if ok else "proof attempt failed (see fields); bounded model decides"
+        if not res["tlc"].endswith("no error"):
+            raise vlib.ToolError("ExitCodeProof: TLC reports an error: " + res["tlc"])
+    finally:
+        shutil.rmtree(d, ignore_errors=True)
+    return res
 
 
 def src_threads(tier, seed):
